@@ -53,6 +53,51 @@ fn b2o(r: Result<bool, String>) -> Out {
     }
 }
 
+/// the named methods called with METHOD SYNTAX on a Decimal receiver (value and reference): an
+/// inherent method of the same name would be picked here instead of the trait method that the
+/// explicit `Trait::method(a, b)` calls of `forms!` name
+macro_rules! method_forms {
+    ($op:expr, $a:expr, $b:expr, $n:expr) => {{
+        let a: Decimal = $a;
+        let b = $b;
+        let n: u8 = $n;
+        let ar = &a;
+        let mut v: Vec<(&'static str, Out)> = Vec::new();
+        match $op {
+            5 => {
+                v.push(("a.checked_add(b)", opt(|| a.checked_add(b))));
+                v.push(("(&a).checked_add(&b)", opt(|| ar.checked_add(&b))));
+            }
+            6 => {
+                v.push(("a.checked_sub(b)", opt(|| a.checked_sub(b))));
+                v.push(("(&a).checked_sub(&b)", opt(|| ar.checked_sub(&b))));
+            }
+            7 => {
+                v.push(("a.checked_mul(b)", opt(|| a.checked_mul(b))));
+                v.push(("(&a).checked_mul(&b)", opt(|| ar.checked_mul(&b))));
+            }
+            8 => {
+                v.push(("a.checked_div(b)", opt(|| a.checked_div(b))));
+                v.push(("(&a).checked_div(&b)", opt(|| ar.checked_div(&b))));
+            }
+            9 => {
+                v.push(("a.checked_rem(b)", opt(|| a.checked_rem(b))));
+                v.push(("(&a).checked_rem(&b)", opt(|| ar.checked_rem(&b))));
+            }
+            10 => {
+                v.push(("a.div_rounded(b, n)", op(|| a.div_rounded(b, n))));
+                v.push(("(&a).div_rounded(&b, n)", op(|| ar.div_rounded(&b, n))));
+            }
+            11 => {
+                v.push(("a.quantize(b)", op(|| a.quantize(b))));
+                v.push(("(&a).quantize(&b)", op(|| ar.quantize(&b))));
+            }
+            _ => {}
+        }
+        v
+    }};
+}
+
 /// all forms of operation `op` for operands (a, b) of concrete types
 macro_rules! run_op {
     ($op:expr, $a:expr, $b:expr, $n:expr, assign: $assign:tt) => {{
@@ -197,7 +242,7 @@ impl Prop for C17 {
     }
     fn rule(&self) -> String {
         "Generated: (operation in {+,-,*,/,%, checked_add/sub/mul/div/rem, div_rounded, quantize, mul_rounded, ==, <}, Decimal d, second operand a Decimal or an integer of any of the 9 types on the left or right, n in 0..=18 (and > 18), thread-default mode). \
-         For each case every stamped form of the chosen (operation, type, position) is executed explicitly (a op b, &a op b, a op &b, &a op &b, a op= b, a op= &b) and compared with the by-value form; for Decimal/Decimal operations &a op &a is also executed with both references to the same object and compared with the same call on two equal objects; the by-value integer form is compared with the same operation on Decimal::from(i): same value and same panic/None class (for + and - also the same scale), \
+         For each case every stamped form of the chosen (operation, type, position) is executed explicitly (a op b, &a op b, a op &b, &a op &b, a op= b, a op= &b; the named methods both as Trait::method(a, b) and with method syntax on a Decimal value and reference) and compared with the by-value form; for Decimal/Decimal operations &a op &a is also executed with both references to the same object and compared with the same call on two equal objects; the by-value integer form is compared with the same operation on Decimal::from(i): same value and same panic/None class (for + and - also the same scale), \
          with the stated exception that Decimal*Decimal short-cuts an operand equal to one. A label per (operation, type, position) records which of the macro-generated impl families were executed; all must be non-zero. \
          Non-trivial: integer operand not in {0, 1} and the Decimal has fractional digits. Distinct: hash of the case."
             .into()
@@ -333,8 +378,11 @@ impl Prop for C17 {
                 ctx.label(impl_label(opi, None, false));
                 let yd = y.dec();
                 let mut v = run_op!(opi, dd, yd, n, assign: yes);
+                v.extend(method_forms!(opi, dd, yd, n));
                 if opi == 12 {
                     v.extend(rforms!(MulRounded::mul_rounded, dd, yd, n));
+                    v.push(("a.mul_rounded(b, n)", op(|| dd.mul_rounded(yd, n))));
+                    v.push(("(&a).mul_rounded(&b, n)", op(|| (&dd).mul_rounded(&yd, n))));
                 }
                 // both references to one object: must behave like two equal objects
                 if let Some((aliased, distinct)) = alias_op!(opi, dd, n) {
@@ -352,7 +400,11 @@ impl Prop for C17 {
                     return; // mul_rounded exists for Decimal x Decimal only
                 }
                 ctx.label(impl_label(opi, Some(i.ty), false));
-                let v = with_int!(i, iv => run_op!(opi, dd, iv, n, assign: yes));
+                let v = with_int!(i, iv => {
+                    let mut v = run_op!(opi, dd, iv, n, assign: yes);
+                    v.extend(method_forms!(opi, dd, iv, n));
+                    v
+                });
                 let id = with_int!(i, iv => Decimal::from(iv));
                 (v, run_op!(opi, dd, id, n, assign: no))
             }
